@@ -99,6 +99,15 @@ theorem C40_no_lost_wakeup {root : List UInt8} {s : State} (hr : Reachable sys r
   apply (reach_inv hr).2.1.wake hne
   intro h0; rw [h0] at hq; cases hq
 
+/-- Frame condition: in all of changes.go the pending set is created by NewChanges, read/emptied
+only by Fetch and filled only by FileChanged, and the condition variable is used only by those (and
+bound to the mutex by NewChanges).  The table is regenerated from EVERY function of the file, so a
+new writer of `changed` (or user of `cond`) anywhere breaks this theorem. -/
+theorem C40_frame :
+    setAccess = [("NewChanges", "init"), ("Fetch", "len"), ("Fetch", "range"), ("Fetch", "delete"),
+      ("FileChanged", "len"), ("FileChanged", "insert")] ∧
+    condAccess = [("NewChanges", "bind"), ("Fetch", "wait"), ("FileChanged", "broadcast")] := by decide
+
 /-! ### liveness as enabledness -/
 
 /-- some step of thread `i` is enabled -/
